@@ -268,6 +268,7 @@ def run(ctx):
     texts = gen_texts(ctx)
     batches = [texts[i:i + 40] for i in range(0, len(texts), 40)]
     agg = {"n": 0, "returned_calls": 0}
+    suspects = []
     for r in run_cases(text_worker, batches, chunk=1):
         if "harness_error" in r:
             ctx.violation({"stage": "harness error", "detail": r}, no_input=True)
@@ -275,10 +276,21 @@ def run(ctx):
         agg["n"] += r["n"]
         agg["returned_calls"] += r["returned_calls"]
         for t in r["timeouts"][:3]:
-            ctx.violation({"stage": "watchdog (%.0f s) on docstring-level entry points" % WATCHDOG, "input": {"text": t},
-                           "clause": "a public parser/emitter did not return or raise on this text (ms expected)"})
+            suspects.append(t)
         for t, v in r["harness"][:1]:
             ctx.violation({"stage": "harness error", "detail": [t, v]}, no_input=True)
+    # a watchdog expiry in a loaded worker is only a suspicion: it is confirmed alone, with a ten times longer limit
+    confirmed = 0
+    for t in suspects[:12]:
+        if confirmed >= 3:
+            break
+        st, _v = guarded(calls_on_text, t, WATCHDOG * 10)
+        if st == "timeout":
+            confirmed += 1
+            ctx.violation({"stage": "watchdog (%.0f s in a worker, then %.0f s alone) on docstring-level entry points" % (WATCHDOG, WATCHDOG * 10),
+                           "input": {"text": t}, "clause": "a public parser/emitter did not return or raise on this text (ms expected)"})
+    agg["watchdog_suspects"] = len(suspects)
+    agg["watchdog_confirmed"] = confirmed
     tb = [texts[i:i + 60] for i in range(0, len(texts), 60)]
     if ctx.quick:
         tb = tb[: max(4, len(tb) // 3)]
@@ -323,7 +335,7 @@ def run(ctx):
                 "longer ones; each through every docstring-level parser/emitter configuration under a %.0f s watchdog; iteration "
                 "counts of two modelled loops compared with sys.settrace; doctrans applied 3 times to generated modules" %
                 (2 if ctx.quick else 3, len(ALPHA), WATCHDOG),
-        "texts": agg["n"], "calls_that_returned": agg["returned_calls"], "loop_instances_compared": tr["n"],
+        "texts": agg["n"], "calls_that_returned": agg["returned_calls"], "watchdog_suspects": agg["watchdog_suspects"], "watchdog_confirmed": agg["watchdog_confirmed"], "loop_instances_compared": tr["n"],
         "l1_instances": tr["l1"], "l5_instances": tr["l5"], "max_header_evaluations_per_char": round(tr["max_ratio"], 3),
         "doctrans_sequences": len(druns), "traces_validated_against_impl": tr["n"],
         "while_loops": [l["key"] for l in meta.get("loops", [])],
